@@ -314,6 +314,27 @@ func runC04(c *engine.Ctx) {
 			nFail++
 		}
 	}
+	// writer/reader agreement: every status the responder terminates a request with is a failure (resp. terminal) for the requestor
+	for _, f := range c.P.SrcFuncs() {
+		if !engine.IsShipped(engine.FuncPkgPath(f)) {
+			continue
+		}
+		for _, ci := range engine.Calls(f) {
+			if !ci.Common.IsInvoke() || ci.Common.Method.Name() != "FinishWithError" {
+				continue
+			}
+			k, ok := engine.ConstInt(ci.Common.Args[0])
+			if !ok {
+				continue // forwarded parameter
+			}
+			arg := []engine.EVal{{K: engine.EInt, I: k}}
+			fv := engine.EvalPure(isF, arg, 0)
+			ev := engine.EvalPure(asE, arg, 0)
+			if len(fv) != 1 || fv[0].K != engine.EBool || !fv[0].B || len(ev) != 1 || ev[0].K != engine.EPtr {
+				bad = fmt.Sprintf("the responder terminates requests with %s (in %s) but the requestor does not treat it as a failure with an error", names[k], engine.FuncName(f))
+			}
+		}
+	}
 	c.Decide(r5, "status-predicates", asE.Pos(), bad == "" && nFail >= 5, fmt.Sprintf("over %d defined codes: success/failure disjoint, %d failure codes, AsError nil exactly for success codes", len(codes), nFail), bad)
 	// failure -> cancel with AsError of the same response
 	okCancel := false
